@@ -3,7 +3,7 @@ _NOTE = ("per-n proofs (n range in evidence); float arithmetic treated as exact 
          "z3/cvc5 trusted (A4); spec functions trusted as the intended mathematics (A5); see evidence trusted_base")
 CHECKS = {
     "C01": {"level": "proof", "technique": "contract-based deductive verification (symbolic execution of the real code under a numpy model -> SMT obligations, z3/cvc5); bounded run-time contracts for float/history clauses",
-            "text": "Containment, ordering and exactness postconditions of both superadditive computers discharged for all real-valued superadditive games, all knowledge sets and arbitrary stale tables per n=2..5 (6 thorough); operation histories by an inductive invariant plus whole-history scenarios with several operations between recomputes; float clause and long histories bounded.",
+            "text": "Containment, ordering and exactness postconditions of both superadditive computers discharged for all real-valued superadditive games, all knowledge sets and arbitrary stale tables per n=2..6; operation histories by an inductive invariant plus whole-history scenarios with several operations between recomputes; float clause and long histories bounded; exactly representable games at binary scales 2^-40..2^24 compared with tolerance 0.",
             "note": _NOTE},
     "C02": {"level": "proof", "technique": "contract-based deductive verification: functional postcondition table=(L,U) + ghost lemmas over spec functions (z3); LP cross-check bounded",
             "text": "Both computers proved equal to the spec functions L/U for all games and knowledge sets per n; ghost lemmas prove L/U are the attained extremes over the completion polytope.",
@@ -31,7 +31,7 @@ CHECKS.update({
             "text": "Tables proved to be a function of knowledge alone (independent stale rows), idempotent and restored by reveal/un-reveal for the SA computers per n; for the SAM approximation unrolled (sam_apx_1/10) and for EVERY repetition count by a relational cut of its loop; environment step/unstep histories.",
             "note": _NOTE + "; SAM approximation: every repetition count through a relational (two-run) cut of the loop at n=3,4, larger n bounded"},
     "C09": {"level": "proof", "technique": _T + "; object invariant + per-method contracts from an arbitrary invariant state",
-            "text": "Every ICG_Gym method proved against its contract from an arbitrary state satisfying the environment invariant (all chosen sets at once), real callees inlined, n=3 (4 thorough); real gymnasium sequences bounded.",
+            "text": "Every ICG_Gym method proved against its contract from an arbitrary state satisfying the environment invariant (all chosen sets at once), real callees inlined, n=3 (4 thorough); real gymnasium sequences bounded, including whole float episodes in which `done` must fire on degenerate intervals (the only place a change that is equivalent over the reals but not in float64 can show).",
             "note": _NOTE + "; gymnasium.Env stubbed in the deductive part"},
 })
 
@@ -53,7 +53,7 @@ CHECKS.update({
             "text": "Mixed: builders and registry partials proved (raises nothing, shape, v(empty)=0, exact superadditivity, monotonicity, draws only from the supplied generator) for every outcome of the random draws at n=3..4; covg/oxs and float-level membership bounded on the real registry n=3..6.",
             "note": _NOTE + _A6},
     "C19": {"level": "other", "technique": _T + " over an abstract file system with effect trace (SpecFS) and a symbolic earlier mapping; real-file round trips bounded",
-            "text": "save_json's contract (existing name: no effect; new name: old mapping + entry) proved for an arbitrary earlier mapping; Output.from_json(json(out)) carries symbolic matrices through; byte-level round trip rests on json/numpy and is bounded on real files.",
+            "text": "save_json's contract (existing name: no effect; new name: old mapping + entry) proved for an arbitrary earlier mapping; the whole save() pipeline (all registered savers, matplotlib inert) writes exactly the matrices it was given and leaves the caller's matrices untouched; Output.from_json(json(out)) carries symbolic matrices through; byte-level round trip rests on json/numpy and is bounded on real files.",
             "note": _NOTE + _A6},
     "C20": {"level": "proof", "technique": _T + " over an abstract file system: all-or-nothing invariant checked after every prefix of the effect trace; crash injection on the real function as replay",
             "text": "For an arbitrary earlier mapping the results file is, after every prefix of save_json's effect trace, exactly the old or a complete new document (single atomic replace); replayed with the k-th write/close/replace failing on real files.",
@@ -62,13 +62,13 @@ CHECKS.update({
 
 CHECKS.update({
     "C14": {"level": "other", "technique": _T + "; object invariant from an arbitrary symbolic state, QF_NRA orthogonality; configurations enumerated; float32 histories bounded",
-            "text": "Mixed: constructor/ranking bijection for every configuration (concrete execution under the model); strategies are distributions, one iteration preserves the regret invariant, orthogonality (n=3), plus-clipping and save/load proved from an arbitrary invariant state with symbolic terminal values and iteration counter; float32 runs bounded.",
+            "text": "Mixed: constructor/ranking bijection for every configuration (concrete execution under the model); strategies are distributions, one iteration preserves the regret invariant, orthogonality (n=3, limits 1-2; QF_NRA beyond both solvers above that), plus-clipping and save/load proved from an arbitrary invariant state with symbolic terminal values and iteration counter; float32 runs bounded.",
             "note": _NOTE + _A6 + "; orthogonality at n=4 bounded only (QF_NRA beyond both solvers)"},
 })
 
 CHECKS.update({
     "C11": {"level": "other", "technique": _T + "; assumed multiprocessing.Pool.starmap contract (SpecPool); enumeration exhaustive per n; real pool bounded",
-            "text": "Mixed: the per-task function, the meta-game, the search enumeration and best-states proved for a symbolic hidden game (n=3,4) under the assumed starmap contract; possible_action_sequences exhaustive over every knowledge set (n<=3, 4 thorough); worker-count independence additionally exercised with the real pool (bounded).",
+            "text": "Mixed: the per-task function, the meta-game (also two meta-game objects over different games queried alternately), the search enumeration and best-states proved for a symbolic hidden game (n=3,4) under the assumed starmap contract; possible_action_sequences exhaustive over every knowledge set (n<=3, 4 thorough); worker-count independence additionally exercised with the real pool (bounded).",
             "note": _NOTE + _A6},
     "C12": {"level": "other", "technique": _T + " for eval_one / evaluate(processes=1) over every valid policy; the schedule clause only by bounded runs of the real multiprocessing.Pool",
             "text": "Mixed: trajectories proved for a symbolic hidden game and every valid policy (eval_one all limits at n=3, limit 2 at n=4; evaluate with processes=1); equality across worker counts / non-replay decided only by bounded real-pool runs, where the listed finding C12-pool-rng-replay shows.",
